@@ -27,7 +27,10 @@ def rule_histories(ctx):
 
 
 def rule_reset_complete(ctx):
+    from .c05 import rule_reset_restores_fresh_state
+
     rule_reset_completeness(ctx)
+    rule_reset_restores_fresh_state(ctx)
     ctx.res.rule_instances["O8.2"] = ctx.res.rule_instances.get("O5.4", 0)
 
 
